@@ -95,10 +95,22 @@ def gen2(files):
 
 
 def sh(cmd, cwd=None, env=None, timeout=900):
+    """Run in its own process group with an address-space limit; on timeout kill the whole group
+    (a mutant can loop forever or allocate without bound inside the test binary)."""
+    import signal, resource
+    def pre():
+        os.setsid()
+        resource.setrlimit(resource.RLIMIT_AS, (6 << 30, 6 << 30))
+    p = subprocess.Popen(cmd, cwd=cwd, env=env, shell=isinstance(cmd, str), stdout=subprocess.PIPE, stderr=subprocess.STDOUT, text=True, preexec_fn=pre)
     try:
-        p = subprocess.run(cmd, cwd=cwd, env=env, shell=isinstance(cmd, str), stdout=subprocess.PIPE, stderr=subprocess.STDOUT, text=True, timeout=timeout)
-        return p.returncode, p.stdout
+        out, _ = p.communicate(timeout=timeout)
+        return p.returncode, out
     except subprocess.TimeoutExpired:
+        try:
+            os.killpg(p.pid, signal.SIGKILL)
+        except OSError:
+            pass
+        p.communicate()
         return 124, "timeout"
 
 
@@ -131,11 +143,13 @@ def run_mutant(args):
         lines[m["line"]] = ""
     open(p, "w").write("\n".join(lines))
     env = dict(os.environ, CARGO_TARGET_DIR=os.path.join(ROOT, "t%d" % w), CARGO_NET_OFFLINE="true", RUSTFLAGS="-Awarnings")
-    rc, out = sh("cargo test --offline --no-fail-fast -q 2>&1 | tail -40", cwd=d, env=env, timeout=600)
+    rc, out = sh("cargo test --offline --no-fail-fast -q 2>&1 | tail -40", cwd=d, env=env, timeout=240)
     if "error: could not compile" in out or "error[E" in out or "error: " in out and "test failed" not in out and "test result" not in out:
         return dict(m, status="no-compile")
     res = re.findall(r"test result: (\w+)\. (\d+) passed; (\d+) failed", out)
-    if not res or rc == 124:
+    if rc == 124:
+        return dict(m, status="killed-by-tests", note="timeout (non-termination)")
+    if not res:
         return dict(m, status="no-result", tail=out[-300:])
     if any(int(f) > 0 for _, _, f in res):
         return dict(m, status="killed-by-tests")
